@@ -1,6 +1,7 @@
 package checks
 
 import (
+	"math/bits"
 	"bytes"
 	"encoding/binary"
 	"fmt"
@@ -153,12 +154,17 @@ func c08ItemValue(id byte, content []byte, c model.AdditionContent) string {
 			return "ManualAlarm"
 		}
 	case 0x05:
-		if len(c.TirePressure.Values) != l {
-			return "TirePressure.count"
-		}
+		// one value per byte, keyed by the byte's position. A zero byte (no reading) may be reported as 0 or left out —
+		// nothing else may be reported for it, and no position beyond the item
 		for i, v := range content {
-			if got, ok := c.TirePressure.Values[uint8(i)]; !ok || got != v {
+			got, ok := c.TirePressure.Values[uint8(i)]
+			if (v != 0 && (!ok || got != v)) || (v == 0 && ok && got != 0) {
 				return "TirePressure.Values"
+			}
+		}
+		for k := range c.TirePressure.Values {
+			if int(k) >= l {
+				return "TirePressure.count"
 			}
 		}
 	case 0x06:
@@ -442,6 +448,14 @@ func c08RandContent(r *core.Rand, id byte, l int) []byte {
 	for i := range ct {
 		ct[i] = byte(1 + r.Intn(255))
 	}
+	if id == 0x05 && r.Bool() {
+		// tyre positions without a reading (zero bytes): a vehicle with fewer tyres than the item has bytes
+		for i := range ct {
+			if r.Bool() {
+				ct[i] = 0
+			}
+		}
+	}
 	return ct
 }
 
@@ -658,6 +672,64 @@ func c08Words(c *core.Collector, x *Ctx) {
 	r0 := core.NewRand(c.Seed, "c08w", 0)
 	for i := 0; i < c.N(20000, 200000); i++ {
 		words = append(words, r0.U32())
+	}
+	// every word with at most 5 bits set and every word with at most 3 bits clear, through 0x0200 (words a real vehicle
+	// sends have a handful of bits set: a decoder that special-cases "the usual values" is wrong on one of those)
+	{
+		var sparse []uint32
+		var rec func(from int, left int, w uint32)
+		rec = func(from, left int, w uint32) {
+			if left == 0 {
+				return
+			}
+			for b := from; b < 32; b++ {
+				v := w | 1<<b
+				sparse = append(sparse, v)
+				rec(b+1, left-1, v)
+			}
+		}
+		rec(0, 5, 0)
+		n3 := len(sparse)
+		for _, v := range sparse[:n3] {
+			if bits.OnesCount32(v) <= 3 {
+				sparse = append(sparse, ^v)
+			}
+		}
+		const shards = 64
+		core.ParallelFor(shards, ncpu(), func(sh int) {
+			r := core.NewRand(c.Seed, "c08sp", uint64(sh))
+			blk := c08Block(r, 0, 0)
+			m := c08Msg(blk)
+			for i := sh; i < len(sparse); i += shards {
+				w := sparse[i]
+				o := uint32(0)
+				if i%3 == 1 {
+					o = r.U32()
+				}
+				for pos := 0; pos < 2; pos++ {
+					if pos == 0 {
+						binary.BigEndian.PutUint32(blk[0:], w)
+						binary.BigEndian.PutUint32(blk[4:], o)
+					} else {
+						binary.BigEndian.PutUint32(blk[0:], o)
+						binary.BigEndian.PutUint32(blk[4:], w)
+					}
+					t := model.T0x0200{}
+					wit := map[string]any{"kind": "c08", "carrier": "0200", "body": core.Hex(blk), "block": core.Hex(blk), "items": nil}
+					if err := t.Parse(m); err != nil {
+						c.Violate("reject|well-formed location body rejected|0200", "sparse word sweep", wit)
+						return
+					}
+					if wb := c08Base(&t.T0x0200LocationItem, blk); wb != "" {
+						c.Violate(wb, "sparse word sweep: "+wb, wit)
+						return
+					}
+				}
+			}
+		})
+		c.Evals(int64(2 * len(sparse)))
+		c.Count("sparse_words", int64(len(sparse)))
+		c.Floor("sparse_words", 240000)
 	}
 	core.ParallelFor(len(words), ncpu(), func(i int) {
 		r := core.NewRand(c.Seed, "c08wb", uint64(i))
